@@ -442,15 +442,15 @@ func runRandom(rep *vfutil.Report, c randCase, tw *vfutil.TraceWriter) {
 func randomCases(seed int64, thorough bool) (cs []randCase) {
 	k := int64(0)
 	add := func(c randCase) { k++; c.Seed = seed*1000 + k; cs = append(cs, c) }
-	for rep := 0; rep < vfutil.Tier(2, 6); rep++ {
+	for rep := 0; rep < vfutil.Tier(1, 6); rep++ {
 		add(randCase{Peers: 2, N: 40, Prefill: 60, Ops: 150, Acl: true, Kv: true, Bulk: true})
 		add(randCase{Peers: 3, N: 60, Prefill: 50, Ops: 200, Acl: true, Bulk: true})
 		add(randCase{Peers: 2 + rep%2, N: 30, Prefill: 70, Ops: 120, Acl: true, Kv: true, Bulk: true, NoSpace: true})
 	}
 	// the index is split (more than 256 elements): the diff takes several request rounds
 	add(randCase{Peers: 2, N: 700, Prefill: 70, Ops: 120, Acl: true, Kv: true, Bulk: true})
-	add(randCase{Peers: 3, N: 1500, Prefill: 60, Ops: 120, Bulk: true})
 	if thorough {
+		add(randCase{Peers: 3, N: 1500, Prefill: 60, Ops: 120, Bulk: true})
 		add(randCase{Peers: 2, N: 3000, Prefill: 80, Ops: 150, Acl: true, Kv: true, Bulk: true})
 		// more than 256 elements per first-level bucket: a third level of ranges
 		add(randCase{Peers: 2, N: 12000, Prefill: 85, Ops: 80, Bulk: true})
@@ -506,8 +506,8 @@ func TestRecord(t *testing.T) {
 		}
 		events += tw.Len()
 		tw.Close()
-		if corrupt != "" {
-			corruptTrace(path, corrupt)
+		if corrupt != "" && ci == 0 {
+			corruptTrace(path, corrupt) // the self-test validates the first file only
 		}
 		consts := map[string]any{"peers": []string{"p1", "p2", "p3"}[:c.Peers], "trees": treeIds(c.N), "acl": c.Acl, "kv": c.Kv, "changes": changeNames, "nospace": c.NoSpace}
 		b, _ := json.Marshal(consts)
